@@ -62,6 +62,8 @@ var floatBounds = []float64{0, math.Copysign(0, -1), 1, -1, 0.1, -0.1, 0.5, 1.5,
 
 var stringBounds = []string{"", "a", "ab", "0", "7", "12", "true", "-3.5", "你", "你好", "😀", "a😀", "😀b", "é", "\"", "a\"b", "{}", ";", "\x00", "\x7f",
 	"\xff", "\xe4\xb8", "a\x80b", "\xf8\x88\x80\x80\x80", "\xc0\xaf", "\xed\xa0\x80", "\xf0\x9f\x98",
+	// text cut in the middle of a character (what a byte-limited column or a Latin-1 source produces)
+	"\xc3", "a\xc3", "abc\xc3", "STRA\xdf", "é\xc3", "你\xe4", "ab\xf0\x9f", "\xdf\xc3",
 	strings.Repeat("x", 255), strings.Repeat("x", 256), strings.Repeat("x", 257), strings.Repeat("你", 86), strings.Repeat("😀", 64), strings.Repeat("ab😀", 200),
 	"NaN", "+Inf", "1e5", "2008-11-23"}
 
@@ -134,6 +136,11 @@ func genString(rt *rapid.T, o Opts) string {
 		s = rapid.StringN(0, 40, -1).Draw(rt, "su")
 	default:
 		s = rapid.SampledFrom([]string{"alpha", "beta", "gamma", "k", "key", "值"}).Draw(rt, "sword")
+	}
+	if rapid.IntRange(0, 15).Draw(rt, "cut") == 0 {
+		// cut in the middle of a multi-byte character
+		r := rapid.SampledFrom([]string{"é", "ß", "你", "😀"}).Draw(rt, "cutChar")
+		s += r[:rapid.IntRange(1, len(r)-1).Draw(rt, "cutAt")]
 	}
 	if (o.NoBadUTF8 || o.JSONSafe) && !validUTF8(s) {
 		s = strings.ToValidUTF8(s, "?")
